@@ -7,6 +7,13 @@
  *       read:     a = file
  *       validate: a = file
  *       feed:     b = complete new file, a = response body (plain) for the request of all chunks
+ *       feedmp:   b = initial target (header of the new file, some chunks present), c = Content-Type header line of a
+ *                 multipart/byteranges response, a = its body; header callback, then the body in three pieces
+ *       life:     a = file; the whole life of a reading context inside the region: create, open, every getter, read to the
+ *                 end, close, free
+ *       writez:   a = content, c = dictionary; the whole life of a writing context: create, options (zstd, dictionary,
+ *                 digest types), write / end-chunk / write, close, free
+ *       misc:     a = file, b = another file: name tables, range rendering, error strings, chunk requests, matching
  *   explore threads=<i,j[,k]> bound=<preemptions> [maxexec=<n>]      one case: all schedules within the bound
  *   free threads=<i,j[,k]> reps=<n>                                    one case: free-running (race pass, tsan variant)
  * context set-up (opening files, reading headers) happens before the scheduled region; the scheduled region is the
@@ -18,6 +25,7 @@
 #include "drv.h"
 #include "vfsched.h"
 #include <pthread.h>
+#include <stdarg.h>
 #include <sys/wait.h>
 #include <sys/mman.h>
 
@@ -83,7 +91,33 @@ static void prep(tstate *t) {
         t->range = zck_get_missing_range(t->z1, -1);
         t->dl = zck_dl_init(t->z1);
         zck_dl_set_range(t->dl, t->range);
+    } else if(!strcmp(s->scen, "feedmp")) {
+        t->fd1 = tmp_file_with("qm", s->b.p, s->b.n);
+        t->z1 = zck_create();
+        if(!zck_init_read(t->z1, t->fd1)) die("sched: target does not open");
+        zck_find_valid_chunks(t->z1);
+        zck_reset_failed_chunks(t->z1);
+        t->range = zck_get_missing_range(t->z1, -1);
+        t->dl = zck_dl_init(t->z1);
+        zck_dl_set_range(t->dl, t->range);
+    } else if(!strcmp(s->scen, "life") || !strcmp(s->scen, "misc")) {
+        t->fd1 = tmp_file_with("ql", s->a.p, s->a.n);
+        if(s->b.n) t->fd2 = tmp_file_with("qL", s->b.p, s->b.n);
+    } else if(!strcmp(s->scen, "writez")) {
+        t->fd1 = tmp_file("qz");
     } else die("sched: unknown scenario %s", s->scen);
+}
+
+/* running digest of everything a scenario observes */
+typedef struct { char buf[8192]; size_t n; } obsacc;
+static void oa(obsacc *o, const char *fmt, ...) {
+    va_list ap;
+    va_start(ap, fmt);
+    if(o->n < sizeof o->buf) {
+        int w = vsnprintf(o->buf + o->n, sizeof o->buf - o->n, fmt, ap);
+        if(w > 0) o->n += (size_t)w < sizeof o->buf - o->n ? (size_t)w : sizeof o->buf - o->n - 1;
+    }
+    va_end(ap);
 }
 
 static void flags_of(zckCtx *z, char *dst) {
@@ -145,6 +179,100 @@ static void body(void *v) {
         sha256_hex(f.p, f.n, h);
         blob_free(&f);
         snprintf(t->obs, sizeof t->obs, "feed:rets=%zu,%zu:flags=%s:target=%.16s", r1, r2, fl, h);
+    } else if(!strcmp(s->scen, "feedmp")) {
+        blob hl = blob_dup(s->c.p, s->c.n);
+        size_t r0 = zck_header_cb((char *)hl.p, 1, hl.n, t->dl);
+        blob_free(&hl);
+        size_t third = s->a.n / 3, rr[3];
+        for(int i = 0; i < 3; i++) {
+            size_t lo = i * third, len = i == 2 ? s->a.n - lo : third;
+            blob pc = blob_dup(s->a.p + lo, len);
+            rr[i] = zck_write_chunk_cb(pc.p, 1, pc.n, t->dl) == len;
+            blob_free(&pc);
+        }
+        flags_of(t->z1, fl);
+        blob f = fd_contents(t->fd1);
+        sha256_hex(f.p, f.n, h);
+        blob_free(&f);
+        snprintf(t->obs, sizeof t->obs, "feedmp:hdr=%d:rets=%zu,%zu,%zu:flags=%s:target=%.16s", r0 == s->c.n, rr[0], rr[1], rr[2], fl, h);
+    } else if(!strcmp(s->scen, "life")) {
+        obsacc *o = calloc(1, sizeof *o);
+        zckCtx *z = zck_create();
+        int op = z && zck_init_read(z, t->fd1);
+        oa(o, "open=%d", op);
+        if(op) {
+            char *d1 = zck_get_header_digest(z), *d2 = zck_get_data_digest(z);
+            oa(o, " meta=%zd,%d,%d,%zd,%zd,%zd,%s,%s", zck_get_flags(z), zck_get_full_hash_type(z), zck_get_chunk_hash_type(z),
+               zck_get_header_length(z), zck_get_length(z), zck_get_chunk_count(z), d1 ? d1 : "-", d2 ? d2 : "-");
+            free(d1); free(d2);
+            for(zckChunk *ch = zck_get_first_chunk(z); ch; ch = zck_get_next_chunk(ch)) {
+                char *cd = zck_get_chunk_digest(ch);
+                oa(o, " c%zd:%s:%zd:%zd:%zd", zck_get_chunk_number(ch), cd ? cd : "-", zck_get_chunk_start(ch), zck_get_chunk_comp_size(ch), zck_get_chunk_size(ch));
+                free(cd);
+            }
+            char buf[16];
+            ssize_t r;
+            size_t tot = 0;
+            while((r = zck_read(z, buf, 11)) > 0) { oa(o, "%.*s", 0, ""); tot += r; for(ssize_t i = 0; i < r; i++) oa(o, "%02x", (unsigned char)buf[i]); }
+            oa(o, " last=%zd total=%zu close=%d", r, tot, (int)zck_close(z));
+        }
+        oa(o, " err=%s", z ? zck_get_error(z) : "-");
+        if(z) zck_free(&z);
+        sha256_hex(o->buf, o->n, h);
+        snprintf(t->obs, sizeof t->obs, "life:n=%zu:%.32s", o->n, h);
+        free(o);
+    } else if(!strcmp(s->scen, "writez")) {
+        zckCtx *z = zck_create();
+        int ok = z && zck_init_write(z, t->fd1);
+        ok = ok && zck_set_ioption(z, ZCK_COMP_TYPE, ZCK_COMP_ZSTD);
+        if(ok && s->c.n) ok = zck_set_soption(z, ZCK_COMP_DICT, (char *)s->c.p, s->c.n);
+        ok = ok && zck_set_ioption(z, ZCK_HASH_FULL_TYPE, ZCK_HASH_SHA512) && zck_set_ioption(z, ZCK_HASH_CHUNK_TYPE, ZCK_HASH_SHA1);
+        ok = ok && zck_set_ioption(z, ZCK_MANUAL_CHUNK, 1);
+        size_t half = s->a.n / 2;
+        ssize_t r1 = ok ? zck_write(z, (char *)s->a.p, half) : -9;
+        ssize_t r2 = ok ? zck_end_chunk(z) : -9;
+        ssize_t r3 = ok ? zck_write(z, (char *)s->a.p + half, s->a.n - half) : -9;
+        int cl = ok ? zck_close(z) : -9;
+        if(z) zck_free(&z);
+        blob f = fd_contents(t->fd1);
+        sha256_hex(f.p, f.n, h);
+        blob_free(&f);
+        snprintf(t->obs, sizeof t->obs, "writez:ok=%d:rets=%zd,%zd,%zd:close=%d:file=%.16s", ok, r1, r2, r3, cl, h);
+    } else if(!strcmp(s->scen, "misc")) {
+        obsacc *o = calloc(1, sizeof *o);
+        for(int ty = 0; ty < 7; ty++) oa(o, "%s,%s;", zck_hash_name_from_type(ty), zck_comp_name_from_type(ty));
+        char *rg = zck_get_range(5 + s->a.n, 900 + 3 * s->a.n);
+        oa(o, " range=%s", rg ? rg : "-");
+        free(rg);
+        zckCtx *z = zck_create(), *y = zck_create();
+        int o1 = zck_init_read(z, t->fd1), o2 = t->fd2 >= 0 && zck_init_read(y, t->fd2);
+        oa(o, " open=%d,%d", o1, o2);
+        if(o1) {
+            /* refused option: the error text is built per context */
+            oa(o, " bad=%d err=%s", (int)zck_set_ioption(z, 9000 + (int)(s->a.n % 7), 5), zck_get_error(z));
+            zck_clear_error(z);
+            for(zckChunk *ch = zck_get_first_chunk(z); ch; ch = zck_get_next_chunk(ch)) {
+                char tmp[512];
+                ssize_t r = zck_get_chunk_data(ch, tmp, sizeof tmp);
+                oa(o, " d%zd=", r);
+                for(ssize_t i = 0; i < r && i < 40; i++) oa(o, "%02x", (unsigned char)tmp[i]);
+            }
+            if(o2) {
+                oa(o, " match=%d", (int)zck_find_matching_chunks(z, y));
+                flags_of(y, fl);
+                oa(o, " flags=%s", fl);
+                zckRange *r = zck_get_missing_range(y, 2);
+                char *rs = r ? zck_get_range_char(y, r) : NULL;
+                oa(o, " missing=%s count=%d", rs ? rs : "-", r ? zck_get_range_count(r) : -1);
+                free(rs);
+                if(r) zck_range_free(&r);
+            }
+        }
+        zck_free(&z);
+        zck_free(&y);
+        sha256_hex(o->buf, o->n, h);
+        snprintf(t->obs, sizeof t->obs, "misc:n=%zu:%.32s", o->n, h);
+        free(o);
     }
 }
 
